@@ -634,3 +634,20 @@ OPS += [
     ('clock-type-used-with-null-clock-types', ['dst'], None,
      op_null_table_still_used('clock-types', '$default-clock-type-name', 'clk0')),
 ]
+
+
+def op_absent_table_still_used(table, user_prop, user_value):
+    """the table is absent from the trace type while an object refers to one of the names other documents commonly
+    define in it: a reference to an unknown name (whatever was loaded before in the same process)"""
+    def f(cfg, path, rnd):
+        cfg['trace']['type'].pop(table, None)
+        get(cfg, path)[user_prop] = user_value
+    return f
+
+
+OPS += [
+    ('clock-type-used-without-clock-types-table', ['dst'], None,
+     op_absent_table_still_used('clock-types', '$default-clock-type-name', 'clk0')),
+    ('log-level-alias-used-without-alias-table', ['ert'], None,
+     op_absent_table_still_used('$log-level-aliases', 'log-level', 'warning')),
+]
